@@ -161,6 +161,91 @@ def probe_add_node():
     return any_class
 
 
+def _probe_stores():
+    """(tag, importer) of both in-memory stores"""
+    from fim.graph.networkx_property_graph import NetworkXGraphImporter
+    from fim.graph.networkx_property_graph_disjoint import NetworkXGraphImporterDisjoint
+    return [("shared", NetworkXGraphImporter()), ("disjoint", NetworkXGraphImporterDisjoint())]
+
+
+def probe_update_whole():
+    """Is update_node_properties one write for the whole dictionary - whatever the types of the values (the sliver setters of
+    details / site / controller_url / ... let any value through) and wherever the unusual one sits?  True: every call either
+    wrote all keys or raised with none written, on both stores."""
+    import uuid
+    from fim.graph.slices.networkx_asm import NetworkxASM
+    whole = True
+    for tag, imp in _probe_stores():
+        g = NetworkxASM(graph_id="verif-probe-" + str(uuid.uuid4()), importer=imp)
+        try:
+            g.add_node(node_id="x", label="NetworkNode", props={"Name": "a", "Type": "VM"})
+            k = 0
+            for odd in (1234, 2.5, True, [1, 2], {"a": 1}, (1, 2), 0, [], None, ""):
+                for pos in range(3):
+                    k += 1
+                    items = [("Capacities", "c%d" % k), ("Tags", "t%d" % k)]
+                    items.insert(pos, ("Details", odd))
+                    _, before = g.get_node_properties(node_id="x")
+                    before = dict(before)
+                    try:
+                        g.update_node_properties(node_id="x", props=dict(items))
+                        raised = False
+                    except Exception:
+                        raised = True
+                    _, after = g.get_node_properties(node_id="x")
+                    want = before if raised else dict(before, **dict(items))
+                    if dict(after) != want:
+                        whole = False
+        finally:
+            try:
+                imp.delete_graph(graph_id=g.graph_id)
+            except Exception:
+                pass
+    return whole
+
+
+def probe_lookup_own_graph():
+    """Are the lookups the building functions pre-check with (node_exists, get_node_properties, the node listing) confined to the
+    graph they are asked about when another graph of the same store holds a node with the same NodeID and Class (a copy of the
+    topology kept in the process)?"""
+    import uuid
+    from fim.graph.slices.networkx_asm import NetworkxASM
+    own = True
+    for tag, imp in _probe_stores():
+        g1 = NetworkxASM(graph_id="verif-probe-" + str(uuid.uuid4()), importer=imp)
+        g2 = NetworkxASM(graph_id="verif-probe-" + str(uuid.uuid4()), importer=imp)
+        try:
+            for cls, typ in (("NetworkNode", "VM"), ("ConnectionPoint", "TrunkPort"), ("Link", "L2Path")):
+                g1.add_node(node_id="both-" + cls, label=cls, props={"Name": "a", "Type": typ})
+                g2.add_node(node_id="both-" + cls, label=cls, props={"Name": "a", "Type": typ})
+                g2.add_node(node_id="only2-" + cls, label=cls, props={"Name": "b", "Type": typ})
+                if not g1.node_exists(node_id="both-" + cls, label=cls) or not g2.node_exists(node_id="only2-" + cls, label=cls):
+                    raise ExtractionError("node_exists does not find a node of its own graph (%s store)" % tag)
+                if g1.node_exists(node_id="only2-" + cls, label=cls):
+                    own = False
+                try:
+                    g1.get_node_properties(node_id="only2-" + cls)
+                    own = False
+                except Exception:
+                    pass
+                try:
+                    g1.update_node_properties(node_id="only2-" + cls, props={"Details": "x"})
+                    own = False
+                except Exception:
+                    pass
+            if sorted(g1.get_all_network_nodes()) != ["both-NetworkNode"] or sorted(g1.get_all_network_links()) != ["both-Link"]:
+                own = False
+            if "Details" in g2.get_node_properties(node_id="only2-Link")[1]:
+                own = False
+        finally:
+            for g in (g1, g2):
+                try:
+                    imp.delete_graph(graph_id=g.graph_id)
+                except Exception:
+                    pass
+    return own
+
+
 def read_idioms():
     """Two control-flow facts of the user layer the model is parameterised by."""
     import ast
@@ -356,6 +441,8 @@ def generate():
     en, svc_layer, link_layer = read_enums()
     cat = read_catalog()
     any_class = probe_add_node()
+    update_whole = probe_update_whole()
+    lookup_own = probe_lookup_own_graph()
     from fim.graph.abc_property_graph import ABCPropertyGraph
     no_unset = list(ABCPropertyGraph.NO_UNSET_PROPERTIES)
     order = ["NetworkNode", "Component", "ConnectionPoint", "NetworkService", "Link"]
@@ -389,6 +476,12 @@ def generate():
     body.append("def noUnset : List String := %s\n" % L(no_unset))
     body.append("/-- behaviour probe: `add_node` rejects an existing NodeID whatever its class -/")
     body.append("def idAnyClass : Bool := %s\n" % ("true" if any_class else "false"))
+    body.append("/-- behaviour probe (both in-memory stores): `update_node_properties` writes the whole dictionary or nothing, whatever the "
+                "types of the values and wherever the unusual one sits -/")
+    body.append("def updateWhole : Bool := %s\n" % ("true" if update_whole else "false"))
+    body.append("/-- behaviour probe (both in-memory stores): node_exists / get_node_properties / update_node_properties / the node listings "
+                "see the nodes of their own graph only when another graph of the store holds the same NodeID and Class -/")
+    body.append("def lookupOwnGraph : Bool := %s\n" % ("true" if lookup_own else "false"))
     body.append("/-- per class: NAME_REGEX = ^[\\w<extra>]{lo,hi}$ as (class, extra characters, lo, hi) -/")
     body.append("def nameRules : List (String × String × Nat × Nat) := %s\n" % lean_list(
         "(%s, %s, %d, %d)" % (lean_str(c), lean_str(x), lo, hi) for c, x, lo, hi in name_rules))
@@ -415,7 +508,8 @@ def generate():
     return {"changed": changed, "rules": len(rules["kinds"]), "classes": rules["classes"],
             "vocab_sizes": {k: len(rules["types"][k]) for k in order},
             "enum_members_outside_vocab": {k: v for k, v in missing.items() if v},
-            "catalog_entries": len(cat), "add_node_rejects_any_class": any_class, "idioms": idioms,
+            "catalog_entries": len(cat), "add_node_rejects_any_class": any_class,
+            "update_node_properties_whole": update_whole, "lookups_confined_to_own_graph": lookup_own, "idioms": idioms,
             "src_sha": {RULES: sha(read_src(RULES)), CATALOG: sha(read_src(CATALOG))}}
 
 
